@@ -12,6 +12,53 @@ COMMON_NOTE = ("Trusted base: Lean 4.33 kernel; axioms ⊆ {propext, Classical.c
                "by exact-float inputs or bounded by a tolerance. ")
 
 CLAIMS = {
+    'C03': dict(
+        text="Theorems (Props/C03.lean, 25, none partial) over a heap model with object identity, shallow per-attribute copy, the networkx view "
+             "alias, the stale-copy branch, @lock_neuron and the map_neuronlist list swap: for every store, receiver and body respecting "
+             "writesOwn, copy-then-operate without inplace changes no pre-existing cell; later edits of the result cannot reach the input; "
+             "inplace=True returns the same object in the same abstract state as the non-inplace result; list mapping keeps list and member "
+             "identity in place and builds a fresh list otherwise; `nl | n` provably mutates the receiver. The premise 'copy guard before "
+             "first write' is re-extracted from the source (path-sensitive AST interpreter) for all 76 functions with an inplace/copy "
+             "parameter and proved by decide over the GENERATED table (all_guarded, lifted by okTrace_frame; necessity by "
+             "write_before_guard_violates). Tie: primitives of pandas 3 / numpy / networkx / igraph behind the real copy() and map_neuronlist "
+             "against the model; a before / after / mutate-result / inplace sweep over 141 public callables found by introspection, "
+             "arithmetic operators and list operators.",
+        note="Lean proves the pattern, not each function body: the per-function guarantee is the syntactic premise plus the sweep on sampled "
+             "inputs. Delegations are covered by the callee's row. Tags and user attributes are outside the heap model (swept only). 54 callables "
+             "are skipped with reasons listed in the evidence (GUI, template brains, missing optional deps, mutators by contract). Four open findings.",
+        technique="Lean 4 proof (heap frame / separation after copy) + AST translator with a decide-checked table + catalogue sweep",
+        ref="§5 C03"),
+    'C07': dict(
+        text="Theorems (Props/C07.lean, 22, none partial), for all well-formed node tables, all label / connector / metadata options and every row "
+             "order the writer may choose: swcValidB decides the SWC validity spec (ids 1..N, roots -1, every parent earlier and lower); the "
+             "depth-sorted ordering always yields a valid parent-first table; make_swc_table AS WRITTEN, for any tie-break of "
+             "sort_values('parent_id'), yields a valid table iff every node with a child has parent_id < node_id (rerooted 5-chain "
+             "counter-example); the node map is a bijection onto 1..N; readBack(write t) reproduces parents, coordinates, radius, labels, "
+             "soma, exported synapse labels and header properties under the node map. Obligations over constants regenerated from swc_io.py "
+             "(label codes, column order, first id, missing parent, radius source, meta keys). Tie: the BYTES of files written by the real "
+             "write_swc are lexed and parsed by the Lean parser and compared with the model table; read_swc vs readBack; independent "
+             "round-trip oracles; 12 source kinds and fmt patterns; hand-made SWC text and NaN rows.",
+        note="The character/JSON lexers and matchFmt are trusted, not proved; pandas / csv / zipfile / tarfile modelled at token level; floats "
+             "cross as shortest decimal repr read as exact rationals. Three open findings (parent-after-child ordering for non id-topological "
+             "tables, NaN row raises, anisotropic units collapsed).",
+        technique="Lean 4 proof (SWC validity characterisation, round trip under the node map) + byte-level correspondence",
+        ref="§5 C07"),
+    'C14': dict(
+        text="Theorems (Props/C14.lean, 26, unbounded): little-endian word round trips for every width and value; for all vertex / edge / "
+             "attribute lists the independent decoder and the model of navis' reader return exactly what encodeSkel / encodeMesh wrote, at "
+             "table level parents come back relabelled by row; the decoder is a partial inverse of the encoder and rejects every byte string "
+             "whose length differs from what its header announces (hence every truncation); navis' reader agrees with it wherever it accepts; "
+             "batch reads equal filterMap read in order for log/ignore (a corrupt file removes only itself) and raise iff some file fails for "
+             "raise; zip and chunked parallel reads agree with the plain loop; NRRD voxel units round-trip per axis; regenerated source facts "
+             "(dtypes, field order, header format, edge column swap, handle_errors table, info literals, NRRD header keys) equal the model's "
+             "layout and decision table. Tie: navis' bytes = Lean encoder bytes; the Lean decoder reads navis' files; the Lean encoder's "
+             "multi-attribute files are read by navis; every truncation offset vs the Lean reader model; batches × containers × policies × "
+             "corrupted subsets vs the Lean policy model; NRRD / HDF5 / JSON / mesh files by navis round trip plus pynrrd / h5py / json / trimesh.",
+        note="float32 values are opaque 32-bit patterns; gzip, HDF5, zip, pynrrd, h5py, trimesh are external (table level tested only); "
+             "'navis' reader rejects every truncation' is false for the code (only _partial proved, counter-example given), likewise Dotprops "
+             "NRRD units. 11 open findings suppress exactly their signatures.",
+        technique="Lean 4 proof (codec inverses, length pinning, policy isolation) + translator + two-way byte-level correspondence",
+        ref="§5 C14"),
     'C02': dict(
         text="The cache protocol of TreeNeuron is modelled as a state machine over the events navis actually executes (checksum stamp, sticky "
              "stale flag, lock, per-entry content tags, `type` column, clear with the literal exclude rule, the temp_property wrapper, copy, "
@@ -51,7 +98,7 @@ CLAIMS = {
              "quantity; x*k/k = x and x+o-o = x for all four neuron types; connectors transformed like nodes; radius scaled only by * and /; "
              "convert_units yields exactly one target unit with physical sizes preserved; map_units returns length/unit within the "
              "round_smart bound, exactly when no rounding occurs, independent of how the unit is spelled; unit spellings normalise "
-             "equivalently; (units, name, id) preserved by every non-scaling operation class. Tie: correspondence for the units setter "
+             "equivalently; metadata_preserved (full): every non-scaling operation class incl. re-wrapping and re-initialisation after a cut keeps (units, name, id); explicit units= overrides; bare tables are 1 dimensionless. Tie: correspondence for the units setter "
              "(85 spellings, pint as parsing oracle), arithmetic and in-place forms, convert_units, map_units, string-valued distance "
              "arguments of six functions, and a 47-operation metadata sweep over all four neuron types; Lean checker samePhysB on navis' output.",
         note="pint parsing and the to_compact prefix are external inputs to the model (the prefix is read from navis' output; theorems hold for "
@@ -208,7 +255,7 @@ CLAIMS = {
 }
 
 # built but temporarily withdrawn while being adapted to a repaired /repo
-PENDING = {'C15'}
+PENDING = set()
 
 NOT_YET = "not claimed at this commit: the Lean model / correspondence for this property is not built yet (work in progress, see DESIGN.md §5)"
 
